@@ -93,19 +93,42 @@ def run(rep, tier, seed):
     jobs = []; hist = {'one-shot': 0, 'persistent': 0, 'ENOSPC': 0, 'EIO': 0, 'partial': 0}
     sites = {}
     for h in range(nhist):
-        opts = {'write_buffer': 65536, 'reuse_logs': rng.below(2), 'paranoid': rng.below(2)}
-        ops, batches = k3lib.gen_write_history(rng, nops=26 if tier == 'quick' else 50, reopen=True)
-        ops = ops + ['get 61 -', 'get 62 -', 'get 6162 -']
+        opts = {'write_buffer': 65536, 'reuse_logs': rng.below(2), 'paranoid': rng.below(2), 'mmap': h % 2, 'cache': 0 if h % 2 == 0 else -1}
+        ops, batches = k3lib.gen_write_history(rng, nops=26 if tier == 'quick' else 50, reopen=True, more_gets=True)
+        ops = ops + ['get %s -' % k3lib.khex(k) for k in (b'a', b'b', b'ab', b'ba', b'\xffk', b'', b'q' * 30)]
         work = os.path.join(out, 'base%d' % h)
         os.makedirs(work, exist_ok=True)
-        rc, o, e, evs, sh = k3lib.run_traced(k3, os.path.join(work, 'db'), opts, ops, work, fail='999999999:5:0:0')
+        rc, o, e, evs, sh = k3lib.run_traced(k3, os.path.join(work, 'db'), opts, ops, work, fail='999999999:5:0:0', logidx=True)
         shutil.rmtree(work, ignore_errors=True)
         n_sites = max([int(l.split(' ')[1]) for l in o.split('\n') if l.startswith('SITES ')] + [0])
         sites['h%d' % h] = n_sites
+        # fault-site map: aim at the case splits -- non-final fragments of multi-fragment log records,
+        # MANIFEST appends/syncs, table reads, directory syncs -- and sample the rest
+        site_list = []; cur = None; run = []
+        for ev in evs:
+            if ev['k'] in ('A', 'Z'):
+                cur = ev['call'] if ev['k'] == 'A' else None
+            elif ev['k'] == 'I':
+                site_list.append((ev['idx'], ev['what'], ev['name'], cur))
+        hot = set()
+        by_call = {}
+        for (ix, what, name, call) in site_list:
+            if what == 'write' and name.endswith('.log'): by_call.setdefault(call, []).append(ix)
+            if what in ('read', 'pread', 'mmap') and name.endswith('.ldb') and len(hot) < 400 and rng.chance(1, 6): hot.add(ix)
+            if what in ('read', 'pread') and name.endswith('.ldb') and call is not None and call < len(ops) and ops[call].startswith('get '): hot.add(ix)
+            if name.startswith('MANIFEST') and what in ('write', 'fsync'): hot.add(ix)
+            if what == 'fsync' and name == '.' and rng.chance(1, 2): hot.add(ix)
+        for call, ixs in by_call.items():
+            if len(ixs) >= 2: hot.update(ixs[:-1])
         ks = list(range(0, n_sites))
         limit = 90 if tier == 'quick' else 600
-        if len(ks) > limit:
-            ks = sorted(rng.choice(ks) for _ in range(limit))
+        rest = [k for k in ks if k not in hot]
+        hot = sorted(hot)
+        while len(hot) > limit // 2: hot.pop(rng.below(len(hot)))
+        pick = list(hot)
+        while len(pick) < limit and rest: pick.append(rest.pop(rng.below(len(rest))))
+        ks = sorted(pick)
+        hist['targeted_sites'] = hist.get('targeted_sites', 0) + len(hot)
         for k in ks:
             pers = rng.chance(1, 3); en = rng.choice([28, 5]); part = rng.chance(1, 4)
             hist['persistent' if pers else 'one-shot'] += 1; hist['ENOSPC' if en == 28 else 'EIO'] += 1; hist['partial'] += int(part)
